@@ -109,6 +109,12 @@ def det_check(tier, seed):
                 if keys != sorted(keys):
                     k = next(x for x in range(len(keys) - 1) if keys[x] > keys[x + 1])
                     out.append(finding('C16', 'transactions_order', f'echoed transactions are not listed by date then ticker: {keys[k]} before {keys[k + 1]}', text, i))
+                ev_sect = t.split('# ASSET EVENTS')[1] if '# ASSET EVENTS' in t else ''
+                evs = re.findall(r'^(\d\d)/(\d\d)/(\d{4}) (?:DIVIDEND|ACCUMULATION|CAPRETURN|SPLIT|UNSPLIT) (\S+)', ev_sect, re.M)
+                ekeys = [(f'{y}-{mo}-{dd}', tk) for dd, mo, y, tk in evs]
+                if ekeys != sorted(ekeys):
+                    k = next(x for x in range(len(ekeys) - 1) if ekeys[x] > ekeys[x + 1])
+                    out.append(finding('C16', 'transactions_order', f'echoed asset events are not listed by date then ticker: {ekeys[k]} before {ekeys[k + 1]}', text, i))
                 hs = re.findall(r'^([A-Z0-9]+): \S+ units at', t, re.M)
                 if hs != want_hold:
                     out.append(finding('C16', 'holdings_order', f'text report: holdings listed {hs}, expected {want_hold}', text, i))
